@@ -407,6 +407,7 @@ pub fn run_history_opt(rng: &mut Rng, init: Init, nunits: usize, oneshot: bool, 
     }
     runner.storage = Some(storage.clone());
     runner.app_set = Some(app_set.clone());
+    crate::sm::LOCKS.with(|l| *l.borrow_mut() = Some((storage.clone(), app_set.clone())));
     // all unit environments are generated up front (the hub switches to the next one by itself at
     // each unit boundary); reboot-wait steps stay symbolic until run time
     let mut envs: Vec<(UnitEnv, String)> = vec![];
@@ -473,7 +474,9 @@ pub fn run_history_opt(rng: &mut Rng, init: Init, nunits: usize, oneshot: bool, 
     // first time, and lets go afterwards; the machine has to wait for the lock, not work around it
     if rng.chance(1, 4) {
         let guard = app_set.try_lock();
+        hub.lock().unwrap().embedder_lock = true;
         if guard.is_some() { let n = 1 + rng.below(2); for _ in 0..n { let _ = std::panic::catch_unwind(std::panic::AssertUnwindSafe(|| { while runner.poll_stream() {} })); } }
+        hub.lock().unwrap().embedder_lock = false;
         drop(guard);
         if let Some(e) = envs.get_mut(0) { e.1.push_str("contended-start/"); }
     }
@@ -621,6 +624,7 @@ pub fn run_history_opt(rng: &mut Rng, init: Init, nunits: usize, oneshot: bool, 
     }
     if peek_panicked { cases.push(UnitCase { input: "mode=panic where=iteration-after-the-last-unit".into(), output: "panic".into(), class: "panic-in-peek".into() }); }
     drop(runner);
+    crate::sm::LOCKS.with(|l| *l.borrow_mut() = None);
     let (committed, wall, exchanges) = { let mut h = hub.lock().unwrap(); (h.committed.clone(), h.wall, h.mock.as_mut().map(|m| std::mem::take(&mut m.exchanges)).unwrap_or_default()) };
     (cases, Carry { init, committed, wall, exchanges })
 }
